@@ -47,6 +47,11 @@ def rpcStep (r : Rpc) (args : List String) : Rpc × String :=
       | some r' => (r', "ok")
       | none => (r, "wedged")
     | _, _ => (r, "bad-op")
+  | ["await", token, _race] =>
+    -- reply and cancellation both present when the caller looks: either outcome settles the call
+    match r.finished.find? (·.1 == token) with
+    | some _ => ({ r with finished := r.finished.filter (·.1 != token) }, "settled")
+    | none => (r, "pending")
   | ["await", token] =>
     match r.finished.find? (·.1 == token) with
     | some (_, res) => ({ r with finished := r.finished.filter (·.1 != token) }, showCallResult res)
